@@ -36,12 +36,50 @@ def run_program(inst, mode):
             counters["refused"] = 1
         res["counters"] = counters
         return res
+    # concrete gate through the public API, without any shim: what Compile(src, {'wasm': True}) really emits for the placeholder constants
+    with shims.no_wasm_shims():
+        cst, cdata = wasmfam.public_compile_wasm(src)
+    concrete_emits = cst == "bytes"
+    if concrete_emits:
+        try:
+            cm = wasmref.decode(list(cdata))
+            wasmref.validate(cm)
+        except (wasmref.Malformed, wasmref.Invalid) as e:
+            spec = dict(harness=pid, inst=inst, kind="invalid", inputs={f"K{k}": wasmfam.PLACEHOLDER0 + k for k in range(nconst)})
+            if replay(spec):
+                res["violations"].append(dict(what=f"the emitted module is not a valid WebAssembly 1.0 binary: {type(e).__name__}: {e}", replay=spec))
+                res["counters"] = counters
+                return res
+            res["errors"].append(f"reference validator rejects a module that wasmtime accepts: {e}")
+            return res
     prog = skeleton(src)
     fs = [x for x in prog.funcs if x.name == _entry(inst) and x.exported]
     if not fs:
         res["errors"].append("no exported entry point")
         return res
     f = fs[0]
+    if concrete_emits and mode == "agreement" and all(t in ("int", "uint", "float") for t, _ in f.params) and not prog.globals:
+        # concrete gate: the entry point of the really emitted bytes on a few argument lists against the VM
+        for vec in ((3, 5, 2, 7), (-4, 2, 9, 1), (6, 6, 1, 3)):
+            cargs = {n: ((abs(v) if t == "uint" else v) if t != "float" else v + 0.5) for (t, n), v in zip(f.params, vec)}
+            try:
+                r_vm, _ = joint.vm_run(linked, _entry(inst), dict(cargs), {}, [])
+                idx0 = wasmref.export_index(cm, _entry(inst))
+                out0 = wasmref.call(cm, idx0, [cargs[n] for _, n in f.params])
+            except (ZeroDivisionError, wasmref.Trap, wasmref.Unmodelled, KeyError):
+                continue
+            except Exception as e:  # noqa: BLE001
+                res["errors"].append(f"concrete gate failed: {type(e).__name__}: {e}")
+                break
+            r_w = out0[0] if out0 else None
+            same = (r_vm is None and r_w is None) or (r_vm is not None and r_w is not None and joint.close(float(r_vm), float(r_w), 1e-6))
+            if not same:
+                spec = dict(harness=pid, inst=inst, kind="values", inputs=dict({f"K{k}": wasmfam.PLACEHOLDER0 + k for k in range(nconst)}, **cargs))
+                obs = replay(spec)
+                if obs:
+                    res["violations"].append(dict(what=f"the emitted code computes a different value than the VM; {obs}", replay=spec))
+                    res["counters"] = counters
+                    return res
     shims.install_vm()
     shims.install_wasm()
     zvars, pre = [], []
@@ -200,6 +238,10 @@ def run_program(inst, mode):
             res.setdefault("notes", []).append(f"real-only discrepancy not reproduced in single precision: {vals}")
         else:
             res["errors"].append(f"counterexample did not reproduce ({what}); inputs {vals}; program {src[:120]}")
+    if concrete_emits and counters["paths_refused"] and not counters["paths_valid"] and not res["violations"]:
+        # the unshimmed compiler emits a module for this program but every symbolic path ended in an exception: the exception is an
+        # artefact of the shims / proxies, not a refusal -- nothing can be claimed for this program
+        res["errors"].append("the compiler emits a module concretely but the symbolic run only saw exceptions (shim gap): " + str([p.value[1] for p in paths if p.kind == "ok" and p.value[0] == "refused"][:1]))
     st = eng.stats()
     res["solver_time"] = st["solver_time_s"]
     counters["feasibility_queries"] = st["feasibility_queries"]
